@@ -174,6 +174,8 @@ func getAugmentableNodesForModule(applyToMod parse.Node) []parse.Node {
 		applyToMod.ChildrenByType(parse.NodeInput)...)
 	allowedNodes = append(allowedNodes,
 		applyToMod.ChildrenByType(parse.NodeOutput)...)
+	allowedNodes = append(allowedNodes,
+		applyToMod.ChildrenByType(parse.NodeNotification)...)
 	return allowedNodes
 }
 
